@@ -56,13 +56,15 @@ def run(ctx):
     kitp, pf = h_c01.run_prefixes(ctx, res, 1 if ctx.quick() else 2, which=("violation",), modes=("subst",) if ctx.quick() else ("subst", "insert"))
     h_c01.triage_failures(ctx, res, kitp, pf)
     structural_semantic_range(res)
+    from . import c12_escape
+    c12_escape.run_escapes(ctx, res)
     res.functions_encoded += ["oq3_parser::LexedStr::to_input", "oq3_parser::TopEntryPoint::parse (whole parser)",
                               "oq3_parser::LexedStr::intersperse_trivia", "oq3_parser::parser::Parser::{err_recover,err_and_bump,error,bump_any}",
                               "oq3_semantics::semantic_error::SemanticError::range (structural)"]
     res.bounds["raw_tokens_full_alphabet"] = max(r for r, a in plan if a is None)
     res.bounds["raw_tokens_error_subalphabet"] = max([r for r, a in plan if a is not None] or [0])
     res.assumptions += ["raw token start offsets are char boundaries (conclusion of C14)", "rowan text ranges of nodes (trusted base)"]
-    res.outside_claim += ["validation.rs literal-escape offsets until the string model lands", "semantic diagnostics' node choice"]
+    res.outside_claim += ["semantic diagnostics' node choice"]
     res.exhaustive = not res.inconclusive
     return res
 
